@@ -377,12 +377,39 @@ class Gen:
                     else:
                         sel_sql.append(a[0]); sel_sx.append(("agg", len(aggs) - 1)); types.append(a[2])
             nk = len(keys)
+            gsets = None
+            if keys and self.o.get("grouping_sets", True) and r.chance(30):
+                # ROLLUP / CUBE: the reference semantics sees the UNION ALL of one grouped block per
+                # grouping set (keys outside the set are NULL), the engine sees the keyword
+                gkind = r.choice(["ROLLUP", "CUBE"])
+                if gkind == "ROLLUP":
+                    gsets = [list(range(i)) for i in range(nk, -1, -1)]
+                else:
+                    gsets = [[i for i in range(nk) if m >> i & 1] for m in range(2 ** nk - 1, -1, -1)]
+                classes.add("grouping_sets")
             if r.chance(25) and aggs:
                 hi = r.below(len(aggs))
                 if aggs[hi][2] in ("i64", "i32"):
                     classes.add("having")
                     hsql = "%s > 1" % aggs[hi][0]
                     hsx = "(cmp gt (col 0 %d) (const (i 1)))" % (nk + hi)
+            if keys and hsql is None and r.chance(50 if gsets else 15):
+                # a filter over a grouping key above the aggregate (what filter pushdown moves)
+                ki = r.below(nk)
+                classes.add("having")
+                classes.add("having_key")
+                if r.chance(30):
+                    neg = r.chance(50)
+                    hsql = "%s IS %sNULL" % (keys[ki].sql, "NOT " if neg else "")
+                    hsx = "(isnull %d (col 0 %d))" % (1 if neg else 0, ki)
+                elif keys[ki].ty in ("i32", "i64", "text"):
+                    l = self.lit(keys[ki].ty)
+                    op = r.choice(["eq", "ne", "lt", "ge"])
+                    sym = {"eq": "=", "ne": "<>", "lt": "<", "ge": ">="}[op]
+                    hsql = "%s %s %s" % (keys[ki].sql, sym, l[0])
+                    hsx = "(cmp %s (col 0 %d) %s)" % (op, ki, l[1])
+                else:
+                    classes.discard("having_key")
             fix = []
             for s in sel_sx:
                 if isinstance(s, tuple):
@@ -394,6 +421,8 @@ class Gen:
             gsx = "((%s) (%s))" % (" ".join("(col 0 %d)" % k.idx for k in keys),
                                    " ".join("(%s)" % a[1][1:-1] if False else a[1] for a in aggs))
             gsql = ", ".join(k.sql for k in keys) if keys else None
+            if gsets:
+                gsql = "%s (%s)" % (gkind, gsql)
         else:
             if want is not None:
                 for t in want:
@@ -419,6 +448,18 @@ class Gen:
             sql += " GROUP BY %s" % gsql
         if hsql:
             sql += " HAVING %s" % hsql
+        if grouped and gsets:
+            blocks = []
+            for gs in gsets:
+                proj = ["(col 0 %d)" % gs.index(i) if i in gs else "(const N)" for i in range(nk)]
+                proj += ["(col 0 %d)" % (len(gs) + j) for j in range(len(aggs))]
+                g1 = "((%s) (%s))" % (" ".join("(col 0 %d)" % keys[i].idx for i in gs), " ".join(a[1] for a in aggs))
+                blocks.append("(select %s %s %s - (%s) 0)" % (fsx, wsx, g1, " ".join(proj)))
+            u = blocks[0]
+            for b in blocks[1:]:
+                u = "(union 1 %s %s)" % (u, b)
+            sx = "(select (fq %s) %s - - (%s) 0)" % (u, hsx, " ".join(sel_sx))
+            return Q(sql, sx, types, names, classes)
         sx = "(select %s %s %s %s (%s) %d)" % (fsx, wsx, gsx, hsx, " ".join(sel_sx), 1 if distinct else 0)
         return Q(sql, sx, types, names, classes)
 
